@@ -8,11 +8,11 @@ def jobs(tier):
     q = tier == "quick"
     return [
         # all oracles incl. ASan/UBSan/assertions and guard bytes
-        Job("c20_dtx", "flt-asan", "random", workers=W, cases=120 if q else 600, maxtime=60 if q else 500),
+        Job("c20_dtx", "flt-asan", "random", workers=W, cases=120 if q else 600, maxtime=60 if q else 500, refs=("ref-flt",)),
         # the DTX clauses are timing/size/energy oracles: the optimised build buys schedule diversity (other seed stream)
-        Job("c20_dtx", "flt-opt", "random", workers=W, cases=240 if q else 1500, maxtime=60 if q else 400, seed_salt=7),
+        Job("c20_dtx", "flt-opt", "random", workers=W, cases=240 if q else 1500, maxtime=60 if q else 400, seed_salt=7, refs=("ref-flt",)),
         # fixed-point build: its own digital-silence test and speech-layer front end
-        Job("c20_dtx", "fix-asan", "random", workers=W, cases=60 if q else 400, maxtime=60 if q else 400, seed_salt=29),
+        Job("c20_dtx", "fix-asan", "random", workers=W, cases=60 if q else 400, maxtime=60 if q else 400, seed_salt=29, refs=("ref-fix",)),
     ]
 
 
@@ -28,7 +28,7 @@ PROP = dict(
         "c20_dtx/gap-200ms-checked": 120, "c20_dtx/dtx-refresh": 110, "c20_dtx/resume-from-dtx": 120, "c20_dtx/resume-checked": 300,
         "c20_dtx/dtx-off": 100, "c20_dtx/detector:analysis": 220, "c20_dtx/detector:silk-or-none": 120, "c20_dtx/gap-silence-checked": 80,
         "c20_dtx/recovery-checked": 55, "c20_dtx/long-frames": 180, "c20_dtx/mode:silk": 100, "c20_dtx/mode:hybrid": 45, "c20_dtx/mode:celt": 300,
-        "c20_dtx/bitrate-at-floor": 60, "c20_dtx/small-buffer": 40,
+        "c20_dtx/bitrate-at-floor": 60, "c20_dtx/small-buffer": 40, "c20_dtx/onset-vs-frozen-checked": 100,
     }},
     assumptions=[
         "A DTX packet is a packet of <= 2 bytes. Activity stops at a frame boundary t0 from which the input is exactly zero; the encoder's silence detector looks at the frame handed to opus_encode (not at its delay buffer), so the rule checked for the 200 ms clause is: some DTX packet starts at t with t - t0 < 200 ms + one frame duration (gap >= 200 ms + 2 frames, DTX on, complexity >= 7, Fs >= 16 kHz, float build). No lower bound is asserted (a burst the detector already judged inactive may legitimately enter DTX earlier).",
